@@ -123,6 +123,9 @@ type hist struct {
 	used  map[uint32]bool
 	next  int
 	zones []string
+	// noIDs: the stored descriptor leaves InstanceDesc.Id empty (the identifier is only the map key, as older
+	// lifecyclers wrote it); a ring client fills it in when it loads the content
+	noIDs bool
 }
 
 func (h *hist) tokens(n int) []uint32 {
@@ -141,7 +144,11 @@ func (h *hist) tokens(n int) []uint32 {
 func (h *hist) addInstance(now int64) string {
 	id := fmt.Sprintf("ing-%d", h.next)
 	h.next++
-	h.desc.Ingesters[id] = ring.InstanceDesc{Id: id, Addr: "addr-" + id, Zone: h.zones[h.rng.IntN(len(h.zones))], Tokens: h.tokens(1 + h.rng.IntN(8)),
+	storedID := id
+	if h.noIDs {
+		storedID = ""
+	}
+	h.desc.Ingesters[id] = ring.InstanceDesc{Id: storedID, Addr: "addr-" + id, Zone: h.zones[h.rng.IntN(len(h.zones))], Tokens: h.tokens(1 + h.rng.IntN(8)),
 		State: ring.ACTIVE, Timestamp: now, RegisteredTimestamp: now - int64(h.rng.IntN(3)*100), Versions: map[uint64]uint64{1: 1}}
 	return "add " + id
 }
@@ -282,7 +289,7 @@ func runHistory(t *testing.T, run *vt.Run, c vt.CaseID, rng *rand.Rand, concurre
 		if za && rng.IntN(2) == 0 {
 			rf = nz // token ranges are defined then
 		}
-		h := &hist{rng: rng, desc: ring.NewDesc(), used: map[uint32]bool{}}
+		h := &hist{rng: rng, desc: ring.NewDesc(), used: map[uint32]bool{}, noIDs: c.Idx%4 == 3}
 		for z := 0; z < nz; z++ {
 			h.zones = append(h.zones, fmt.Sprintf("z%d", z))
 		}
